@@ -2,16 +2,28 @@ import AdaVerif.Model.Pattern
 import AdaVerif.Spec.Setters
 import AdaVerif.Spec.Pattern
 import AdaVerif.Lemmas.Ascii
+import AdaVerif.Lemmas.PatternCanon
+import AdaVerif.Props.C01
 /-
 C15 — URLPattern construction canonicalises components exactly as the URL parser does.
 
-Proved here: what the `char_class_table` classes (regenerated from the source) guarantee about
-every byte, and that the port canonicaliser's lexicographic comparison is numeric comparison.
-Decided on the implementation (checks/props/c15.py): for generated literal component values the
-constructed pattern's component string equals the canonical form computed by the Lean Spec of the
-URL parser/setters, construction fails exactly when that canonicalisation fails, default-port
-elision and base-URL inheritance agree with the URL parser, and the engine-independent vectors of
-the WPT URLPattern corpus are reproduced.
+Proved here:
+* what the `char_class_table` classes (regenerated from the source) guarantee about every byte, and that the port
+  canonicaliser's lexicographic comparison is numeric comparison;
+* **the canonicalisation callbacks themselves** (`Model/PatternCanon.lean`, statement-by-statement models of
+  `canonicalize_username / _password / _search / _hash / _ipv6_hostname / _opaque_pathname / _port / _port_with_protocol /
+  _pathname / _hostname / _protocol`, run against the real functions on every check - checks/patcanoncorr.py) are the URL
+  Pattern Standard's callbacks (`Spec/Pattern.lean`, over `Spec.parse` and the Spec setters) for every value: the eight
+  callbacks that do not go through a URL object unconditionally; `canonicalize_pathname` on both routes (its shortcut for
+  values made of CHAR_SIMPLE_PATHNAME bytes, and dummy URL + `set_pathname` + `get_pathname` through the aggregator's
+  setter theorem of C03) whenever the dummy URL and the result fit the configured maximum length; the shortcuts of
+  `canonicalize_hostname` and `canonicalize_protocol` (their slow routes are compositions of models proved in C01 / C03:
+  `protocol_slow_route` states the composition for the protocol; the hostname's slow route is compared by the
+  correspondence run only, because the host setter theorem does not state the returned flag).
+Decided on the implementation (checks/props/c15.py): for generated literal component values the constructed pattern's
+component string equals the canonical form computed by the Lean Spec of the URL parser/setters, construction fails exactly
+when that canonicalisation fails, default-port elision and base-URL inheritance agree with the URL parser, and the
+engine-independent vectors of the WPT URLPattern corpus are reproduced.
 -/
 namespace AdaVerif.Props.C15
 open AdaVerif AdaVerif.Spec AdaVerif.Model.Pattern
@@ -78,5 +90,130 @@ example : canonicalizePort (ofStr "0080") = some (ofStr "80") := by decide +kern
 example : canonicalizePort (ofStr "065535") = some (ofStr "65535") := by decide +kernel
 example : canonicalizePort (ofStr "65536") = none := by decide +kernel
 example : canonicalizePort (ofStr "000") = some (ofStr "0") := by decide +kernel
+
+/-! ### the canonicalisation callbacks are the Standard's, for every value -/
+open AdaVerif.Model.PatternCanon AdaVerif.Lemmas in
+/-- `canonicalize_username` / `canonicalize_password`: `percent_encode_index` + `percent_encode(input, set, index)` over the
+    userinfo bitmap = UTF-8 percent-encode with the userinfo set -/
+theorem canonicalize_username_is_standard (v : Bytes) :
+    canonicalizeUsername v = Spec.Pattern.canonUsername v ∧ canonicalizePassword v = Spec.Pattern.canonPassword v :=
+  ⟨PC.username_eq v, PC.password_eq v⟩
+
+open AdaVerif.Model.PatternCanon AdaVerif.Lemmas in
+/-- `canonicalize_search` / `canonicalize_hash`: tab/newline removal, then the query (fragment) set -/
+theorem canonicalize_search_hash_is_standard (v : Bytes) :
+    canonicalizeSearch v = Spec.Pattern.canonSearch v ∧ canonicalizeHash v = Spec.Pattern.canonHash v :=
+  ⟨PC.search_eq v, PC.hash_eq v⟩
+
+open AdaVerif.Model.PatternCanon AdaVerif.Lemmas in
+/-- `canonicalize_ipv6_hostname` and `canonicalize_opaque_pathname` (the opaque path state run by hand: cut at '?' / '#',
+    "%20" for a space in front of the cut, C0 control set) -/
+theorem canonicalize_ipv6_opaque_is_standard (v : Bytes) :
+    canonicalizeIpv6Hostname v = Spec.Pattern.canonIpv6Hostname v ∧
+    canonicalizeOpaquePathname v = Spec.Pattern.canonOpaquePathname v :=
+  ⟨PC.ipv6_eq v, PC.opaque_eq v⟩
+
+open AdaVerif.Model.PatternCanon AdaVerif.Lemmas in
+/-- **`canonicalize_port`** (digits prefix, leading zeros dropped, at most five significant digits, lexicographic test
+    against "65535", the digits returned unparsed) **and `canonicalize_port_with_protocol`** (`from_chars` into 16 bits,
+    `get_special_port` of the protocol, "fake" for none) are the port state with a state override: same failures, the
+    shortest decimal spelling, the scheme's default port elided -/
+theorem canonicalize_port_is_standard (v protocol : Bytes) :
+    canonicalizePortFull v = Spec.Pattern.canonPort v none ∧
+    canonicalizePortWithProtocol v protocol = Spec.Pattern.canonPort v (some (portProtocol protocol)) :=
+  ⟨PC.port_eq v, PC.port_with_protocol_eq v protocol⟩
+
+open AdaVerif.Model.PatternCanon AdaVerif.Lemmas in
+/-- **the shortcut of `canonicalize_pathname` never changes the outcome**: a value of CHAR_SIMPLE_PATHNAME bytes is what the
+    path state with an override (with the two-byte prefix put in front and taken off again) returns -/
+theorem canonicalize_pathname_shortcut (v : Bytes) (hne : v ≠ []) (hs : v.all (hasFlag 3) = true) :
+    Spec.Pattern.canonPathname v = some v := PC.pathname_fast v hne hs
+
+open AdaVerif.Model.PatternCanon AdaVerif.Lemmas in
+/-- **`canonicalize_pathname` on both routes** is the Standard's callback.  `partial`: stated for a configured maximum length
+    that admits the dummy URL "fake://fake-url" (15 bytes) and the buffer after `set_pathname`; below that the callback
+    fails (since the fix recorded for C02 - it used to dereference the failed parse) where the Standard knows no limit -/
+theorem canonicalize_pathname_is_standard_partial (L : Nat) (v : Bytes) (hL : 15 ≤ L)
+    (hfit : (AdaVerif.Model.Agg.layout (AggL.ofUrl (setPathname PC.uFake (if v.head? == some 0x2F then v else [0x2F, 0x2D] ++ v)))).buf.length ≤ L) :
+    canonicalizePathname L v = Spec.Pattern.canonPathname v := by
+  by_cases hne : v = []
+  · subst hne; rfl
+  · have h := PC.pathname_slow L v hne hL hfit
+    by_cases hs : v.all (hasFlag 3) = true
+    · rw [← h]
+      simp only [hs, ↓reduceIte]
+      unfold canonicalizePathname
+      simp [FS.isEmpty_false_of_ne hne, hs]
+    · simpa [hs] using h
+
+open AdaVerif.Model.PatternCanon AdaVerif.Lemmas in
+/-- **the shortcut of `canonicalize_hostname` never changes the outcome**: a value of CHAR_SIMPLE_HOSTNAME bytes that
+    `checkers::is_ipv4` does not claim is what the hostname state on a special dummy URL returns.  `partial`: for a value
+    with an ACE label the Standard runs domain-to-ASCII in full; `hxn` states what `ada::idna::to_ascii` answers for an
+    all-ASCII domain (it lower-cases it - `Props/C06.ascii_carve_out` is the same fact on the model of `to_ascii`) -/
+theorem canonicalize_hostname_shortcut_partial (idna : Idna) (v : Bytes) (hne : v ≠ []) (hs : v.all (hasFlag 2) = true)
+    (h4 : AdaVerif.Model.HostKernels.isIpv4 v = false) (hid : HP.IdnaAt idna v)
+    (hxn : (splitOn 0x2E v).any startsWithXn = true → idna.toAscii v = some (v.map toLowerByte)) :
+    Spec.Pattern.canonHostname idna v = some v := PC.hostname_fast idna v hne hs h4 hid hxn
+
+open AdaVerif.Model.PatternCanon AdaVerif.Lemmas in
+/-- the slow route of `canonicalize_protocol` - `ada::parse<url_aggregator>(value + "://dummy.test")`, `get_protocol()`
+    without its ':' - is the scheme of the URL the Standard parses (C01's aggregator theorem; its side conditions) -/
+theorem protocol_slow_route (idna : Idna) (L : Nat) (input : Bytes) (hid : ∀ d, HP.IdnaAt idna d)
+    (hclean : BR.bracketOk (AdaVerif.Model.ParseSpecial.schemeSpecial (input ++ Spec.Pattern.dummySuffix))
+                (AdaVerif.Model.ParseSpecial.hostStart (input ++ Spec.Pattern.dummySuffix)) = true)
+    (hL : (input ++ Spec.Pattern.dummySuffix).length ≤ L)
+    (hfit : ∀ u, parse idna (input ++ Spec.Pattern.dummySuffix) none = some u →
+      (AdaVerif.Model.Agg.layout (AdaVerif.Model.UrlRec.toL (UR.recOf u))).buf.length ≤ L) :
+    protocolSlow idna L input = (Spec.Pattern.protocolUrl idna input).map (·.scheme) := by
+  unfold protocolSlow AdaVerif.Model.ParseAgg.parseNoBaseAL Spec.Pattern.protocolUrl
+  have hsuf : AdaVerif.Model.PatternCanon.dummySuffix = Spec.Pattern.dummySuffix := rfl
+  rw [hsuf]
+  have hl : ¬ (input ++ Spec.Pattern.dummySuffix).length > L := by omega
+  simp only [hl, ↓reduceIte]
+  rw [C01.aggregator_parser_no_base_partial idna _ hid hclean]
+  cases hp : parse idna (input ++ Spec.Pattern.dummySuffix) none with
+  | none => rfl
+  | some u =>
+    have hf := hfit u hp
+    have hl2 : ¬ (AdaVerif.Model.Agg.layout (AdaVerif.Model.UrlRec.toL (UR.recOf u))).buf.length > L := by omega
+    simp only [Option.map_some, hl2, ↓reduceIte]
+    rw [C07.getProtocol_layout]
+    simp [AdaVerif.Model.UrlRec.toL, UR.recOf]
+
+open AdaVerif.Model.PatternCanon AdaVerif.Lemmas in
+/-- **`canonicalize_protocol`**: a special scheme's name is returned as it is, a value of letters, digits, '+', '-', '.' behind
+    a letter is returned lower-cased (only when a capital occurs), and both are the scheme of the URL the Standard parses,
+    `value ++ "://dummy.test"` (`protocolUrl_scheme`: for every such value, whatever IDNA answers); every other value
+    takes the slow route (`protocol_slow_route`).  The single trailing ':' dropped first is "process protocol for init"'s -/
+theorem canonicalize_protocol_is_standard_partial (idna : Idna) (L : Nat) (v : Bytes) (hne : v ≠ [])
+    (hslow : protocolSlow idna L (PC.protocolInput v) = (Spec.Pattern.protocolUrl idna (PC.protocolInput v)).map (·.scheme)) :
+    canonicalizeProtocol idna L v = (Spec.Pattern.protocolUrl idna (PC.protocolInput v)).map (·.scheme) :=
+  PC.protocol_eq idna L v hne hslow
+
+/-- the two dummy URLs as the parser model leaves them (kernel-evaluated), and the model under a limit that excludes them -/
+example : AdaVerif.Model.ParseAgg.parseNoBaseA C10.asciiIdna AdaVerif.Model.PatternCanon.fakeText = some AdaVerif.Model.PatternCanon.fakeUrl ∧
+    AdaVerif.Model.ParseAgg.parseNoBaseA C10.asciiIdna AdaVerif.Model.PatternCanon.dummyText = some AdaVerif.Model.PatternCanon.dummyUrl := by
+  decide +kernel
+example : AdaVerif.Model.PatternCanon.canonicalizePathname 14 (ofStr "/a/../b") = none ∧
+    AdaVerif.Model.PatternCanon.canonicalizePathname 100 (ofStr "/a/../b") = some (ofStr "/b") ∧
+    AdaVerif.Model.PatternCanon.canonicalizePathname 100 (ofStr "a/./b c") = some (ofStr "a/b%20c") ∧
+    AdaVerif.Model.PatternCanon.canonicalizePathname 100 (ofStr "../..") = none ∧
+    AdaVerif.Model.PatternCanon.canonicalizePathname 0 (ofStr "/simple_path-1~") = some (ofStr "/simple_path-1~") := by decide +kernel
+example : AdaVerif.Model.PatternCanon.canonicalizeHostname C10.asciiIdna 100 (ofStr "EXAMPLE.com") = some (ofStr "example.com") ∧
+    AdaVerif.Model.PatternCanon.canonicalizeHostname C10.asciiIdna 18 (ofStr "EXAMPLE.com") = none ∧
+    AdaVerif.Model.PatternCanon.canonicalizeHostname C10.asciiIdna 0 (ofStr "example.com") = some (ofStr "example.com") ∧
+    AdaVerif.Model.PatternCanon.canonicalizeHostname C10.asciiIdna 100 (ofStr "0x7f.1") = some (ofStr "127.0.0.1") ∧
+    AdaVerif.Model.PatternCanon.canonicalizeHostname C10.asciiIdna 100 (ofStr "a b") = none := by decide +kernel
+example : AdaVerif.Model.PatternCanon.canonicalizeProtocol C10.asciiIdna 100 (ofStr "HTTPS:") = some (ofStr "https") ∧
+    AdaVerif.Model.PatternCanon.canonicalizeProtocol C10.asciiIdna 100 (ofStr "web+X") = some (ofStr "web+x") ∧
+    AdaVerif.Model.PatternCanon.canonicalizeProtocol C10.asciiIdna 100 (ofStr " http") = some (ofStr "http") ∧
+    AdaVerif.Model.PatternCanon.canonicalizeProtocol C10.asciiIdna 100 (ofStr "1a") = none ∧
+    AdaVerif.Model.PatternCanon.canonicalizeProtocol C10.asciiIdna 100 (ofStr ":") = none := by decide +kernel
+example : AdaVerif.Model.PatternCanon.canonicalizePortWithProtocol (ofStr "\t0443x") (ofStr "https:") = some [] ∧
+    AdaVerif.Model.PatternCanon.canonicalizePortWithProtocol (ofStr "0443") (ofStr "http") = some (ofStr "443") ∧
+    AdaVerif.Model.PatternCanon.canonicalizePortFull (ofStr "065535") = some (ofStr "65535") ∧
+    AdaVerif.Model.PatternCanon.canonicalizePortFull (ofStr "65536") = none ∧
+    AdaVerif.Model.PatternCanon.canonicalizeOpaquePathname (ofStr "a \t#x") = ofStr "a%20" := by decide +kernel
 
 end AdaVerif.Props.C15
